@@ -164,8 +164,14 @@ def compare(fn_node, ref_node, names=None, table=None, init_ok=(), skip_under=()
     wanted = [n for n in R.defs if names is None or n in names]
     shared = set(wanted) & set(F.defs)
 
-    def expander(D, keep):
-        single = {k: v[0][0] for k, v in D.defs.items() if len(v) == 1 and k not in keep}
+    # a quantity with several definitions on either side is loop-carried / branch-dependent: an atom on both sides
+    multi_any = {k for D_ in (R, F) for k, v in D_.defs.items() if len(v) > 1}
+
+    def expander(D, keep, sound=True):
+        multi = {k for k, v in D.defs.items() if len(v) > 1} if sound else set()
+        # a local may be replaced by its definition only if nothing it mentions is ever rebound (otherwise the
+        # definition captured an older value: `x_previous = x` inside an iteration on x)
+        single = {k: v[0][0] for k, v in D.defs.items() if len(v) == 1 and k not in keep and k not in multi_any and not ({n.id for n in ast.walk(v[0][0]) if isinstance(n, ast.Name)} & multi)}
 
         class X(ast.NodeTransformer):
             depth = 0
@@ -185,16 +191,42 @@ def compare(fn_node, ref_node, names=None, table=None, init_ok=(), skip_under=()
     # second chance for a definition written in terms of other quantities than the reference's (`(r2 - r1) / r1` for
     # `r2_over_r1 - 1`): both sides fully expanded down to parameters and loop-carried names
     keep2 = set(_params(fn_node)) | set(_params(ref_node))
-    rfR2, rfF2 = expander(R, keep2), expander(F, keep2)
+    # (flow-insensitive: a local is replaced by its only definition wherever it occurs - enough for *agreement*, which
+    # both sides must reach with the same spelling of the loop-carried names)
+    rfR2, rfF2 = expander(R, keep2, sound=False), expander(F, keep2, sound=False)
 
     def equal_expanded(rhs_f, rhs_r):
         try:
+            if isinstance(rhs_f, ast.Compare) or isinstance(rhs_r, ast.Compare):
+                if not (isinstance(rhs_f, ast.Compare) and isinstance(rhs_r, ast.Compare) and len(rhs_f.ops) == 1 and len(rhs_r.ops) == 1):
+                    return False
+                return _cmp_key(rhs_f, True, rfF2) == _cmp_key(rhs_r, True, rfR2)
             return rat_equal(rfF2(rhs_f), rfR2(rhs_r))
         except NotEvaluable:
             return False
     res = dict(mismatch=[], unsure=[], matched=0, names=sorted(shared))
+
+    def val(rf, rhs):
+        if isinstance(rhs, ast.Compare) and len(rhs.ops) == 1:
+            return ("cmp", _cmp_key(rhs, True, rf))
+        return ("rat", rf(rhs))
+
+    def veq(a, b):
+        if a[0] != b[0]:
+            return False
+        return a[1] == b[1] if a[0] == "cmp" else rat_equal(a[1], b[1])
     skip_keys = {_cmp_key(ast.parse(src, mode="eval").body, True, rfF) for src in skip_under}
+    # structure gate: a deviation is *definite* only where the implementation has the reference's structure - the same
+    # loop-carried quantities (every reference name with several definitions is a local of the implementation) and, for
+    # the quantity at hand, the same number of definitions.  A restructured computation (other state variables, early
+    # returns instead of one result variable) is not comparable definition by definition: reported as unsure.
+    restructured = any(len(R.defs[n]) > 1 and n not in F.defs for n in wanted)
+    foreign_hit = set()
+    gated = []
+    n_before = None
     for nm in wanted:
+        n_before = len(res["mismatch"])
+        _gate(res, restructured, None)
         if nm not in F.defs:
             # the implementation inlined this local: its uses were expanded on the reference side too (it is not in `keep`)
             if len(R.defs[nm]) > 1:
@@ -203,7 +235,7 @@ def compare(fn_node, ref_node, names=None, table=None, init_ok=(), skip_under=()
         refs = []
         for rhs, nid, _st in R.defs[nm]:
             try:
-                refs.append((rfR(rhs), [_cmp_key(tst, pol, rfR) for tst, pol in R.guards(nid)], rhs))
+                refs.append((val(rfR, rhs), [_cmp_key(tst, pol, rfR) for tst, pol in R.guards(nid)], rhs))
             except NotEvaluable as e:
                 res["unsure"].append((nm, f"reference definition of `{nm}` not evaluable: {e}", 0))
         used = set()
@@ -212,13 +244,20 @@ def compare(fn_node, ref_node, names=None, table=None, init_ok=(), skip_under=()
             if skip_keys and any(_cmp_key(tst, pol, rfF) in skip_keys for tst, pol in F.guards(nid)):
                 continue  # a branch the caller excludes from the comparison
             try:
-                got = rfF(rhs)
+                got = val(rfF, rhs)
             except NotEvaluable as e:
                 res["unsure"].append((nm, f"`{nm} = {ast.unparse(rhs)[:60]}` not evaluable: {e}", ln))
                 continue
-            cands = [i for i, (want, _g, _r) in enumerate(refs) if rat_equal(got, want)]
+            cands = [i for i, (want, _g, _r) in enumerate(refs) if veq(got, want)]
             if not cands:
                 cands = [i for i, (_w, _g, r_) in enumerate(refs) if equal_expanded(rhs, r_)]
+            if not cands:
+                foreign = ({n.id for n in ast.walk(rhs) if isinstance(n, ast.Name)} & set(F.defs)) - set(R.defs) - set(_params(ref_node))
+                foreign = {n for n in foreign if len(F.defs[n]) > 1 or ({m.id for m in ast.walk(F.defs[n][0][0]) if isinstance(m, ast.Name)} & {k for k, v in F.defs.items() if len(v) > 1})}
+                if foreign:
+                    res["unsure"].append((nm, f"`{nm} = {ast.unparse(rhs)[:70]}` is written over the implementation's own state variable(s) {sorted(foreign)}: restructured computation, not comparable definition by definition", ln))
+                    foreign_hit.add(nm)
+                    continue
             if not cands and nm in init_ok and not any(F.cfg.nodes[c].kind == "loop" or F.cfg.nodes[c].label == "while-head" or _in_loop(F, nid) for c, _l in F.cfg.control_conditions(nid)) and not _in_loop(F, nid):
                 continue  # a start value before the iteration: how the loop is entered is not part of the algorithm
             if not cands:
@@ -243,7 +282,25 @@ def compare(fn_node, ref_node, names=None, table=None, init_ok=(), skip_under=()
         for i, (_w, _g, r) in enumerate(refs):
             if i not in used:
                 res["mismatch"].append((nm, f"the reference's `{nm} = {ast.unparse(r)[:90]}` has no counterpart", getattr(fn_node, "lineno", 0)))
+        n_impl = sum(1 for rhs, nid, _st in F.defs[nm] if not (skip_keys and any(_cmp_key(tst, pol, rfF) in skip_keys for tst, pol in F.guards(nid))))
+        n_init = sum(1 for m_ in res["mismatch"][n_before:] if False)
+        same_count = n_impl == len(refs) or (nm in init_ok and n_impl == len(refs) + 1)
+        if restructured or not same_count or nm in foreign_hit:
+            moved = res["mismatch"][n_before:]
+            del res["mismatch"][n_before:]
+            gated.extend(moved)
+    # a function in which every definition that is present agrees with the reference and the only discrepancies are
+    # reference definitions without counterpart has *dropped* those updates (it is not restructured): definite
+    only_dropped = gated and not restructured and not foreign_hit and not res["mismatch"] and all("has no counterpart" in b_ for _a, b_, _c in gated)
+    if only_dropped:
+        res["mismatch"].extend(gated)
+    else:
+        res["unsure"].extend((a_, "restructured computation, not comparable definition by definition: " + b_, c_) for a_, b_, c_ in gated)
     return res
+
+
+def _gate(res, restructured, _unused):
+    return None
 
 
 def _in_loop(D, nid):
